@@ -8,6 +8,7 @@ Three layers.
             | exists x:T. B | forall x:T. B | N = N | N < N | N <= N | O = O
         N ::= n | m | sn | qn | k1 | k2 | 0 | 1 | 2 | 3 | -1 | -2 | 1/2 | N + N | N - N | N * N | N / N | plus(N,N,N) | F(N)
         O ::= o1 | o2 | x (innermost bound variable) | xo (next outer one) | z (free variable) | y (parameter) | w(O)
+            | xn (free occurrence of the variable that the next inner quantifier binds)
     (every production is one node; <= 7 nodes, depth <= 3).  k1, k2 are SYMBOLIC integer constants (unbounded solver
     variables); every shard restricts the grammar to a pool of productions and fixes the production at the root.
     n:int[0,10], m:int[-3,3] are numeric fluents bounded on both sides, qn:int[0,5] a parameter, F(v) = 2v+1 an
@@ -97,6 +98,7 @@ PRODS = {
     "+": ("N", ("N", "N")), "-": ("N", ("N", "N")), "*": ("N", ("N", "N")), "/": ("N", ("N", "N")),
     "plus3": ("N", ("N", "N", "N")), "times3": ("N", ("N", "N", "N")), "F": ("N", ("N",)),
     "o1": ("O", ()), "o2": ("O", ()), "x": ("O", ()), "xo": ("O", ()), "z": ("O", ()), "y": ("O", ()), "w": ("O", ("O",)),
+    "xn": ("O", ()),  # the variable that the NEXT inner quantifier binds, used free here (capture candidates)
 }
 # macro productions: a fixed sub-skeleton offered as one production (it costs its real number of nodes / levels)
 MACROS = {
@@ -109,6 +111,7 @@ MACROS = {
     "x==xo": ("B", ["oeq", ["x"], ["xo"]]), "xo==x": ("B", ["oeq", ["xo"], ["x"]]), "x==y": ("B", ["oeq", ["x"], ["y"]]),
     "x==w(x)": ("B", ["oeq", ["x"], ["w", ["x"]]]), "x==w(o1)": ("B", ["oeq", ["x"], ["w", ["o1"]]]), "x==w(xo)": ("B", ["oeq", ["x"], ["w", ["xo"]]]),
     "xo==w(x)": ("B", ["oeq", ["xo"], ["w", ["x"]]]), "w(x)==x": ("B", ["oeq", ["w", ["x"]], ["x"]]), "x==o2": ("B", ["oeq", ["x"], ["o2"]]),
+    "x==xn": ("B", ["oeq", ["x"], ["xn"]]), "xn==x": ("B", ["oeq", ["xn"], ["x"]]), "p(xn)": ("B", ["p", ["xn"]]),
     "w(x)": ("O", ["w", ["x"]]), "w(o1)": ("O", ["w", ["o1"]]),
     "F(k1)": ("N", ["F", ["k1"]]), "F(n)": ("N", ["F", ["n"]]), "F(2)": ("N", ["F", ["2"]]),
 }
@@ -354,6 +357,8 @@ def _build(W, sk, K, bound):
         return em.VariableExp(bound[-2])
     if p == "z":
         return em.VariableExp(W.z)
+    if p == "xn":
+        return em.VariableExp(W.vars[len(bound)])
     if p == "y":
         return W.y
     if p in QUANT:
@@ -675,6 +680,668 @@ def h_simplify(ctx, pool, root, max_nodes, max_depth, forced=None, problem=False
 
 
 # =============================================================================================
+# layer 2: E3 -- IEEE-754-exact proxy execution of Simplifier.walk_div at unit level
+I64 = (-(2 ** 63), 2 ** 63 - 1)
+
+
+class _Engine:
+    """per-path state of the proxy run: path condition (z3), decisions taken through ctx.choice (the choice-only driver
+    re-executes the harness for every decision vector = DFS over the branches of the real function)"""
+
+    def __init__(self, ctx, timeout_ms=60000):
+        import z3
+
+        self.z3 = z3
+        self.ctx = ctx
+        self.pc = []
+        self.nd = 0
+        self.timeout_ms = timeout_ms
+        self.notes = []
+        self.fresh = 0
+        self.F64 = z3.Float64()
+        self.used_float = False
+
+    def feasible(self, extra):
+        s = self.z3.Solver()
+        s.set("timeout", self.timeout_ms)
+        s.add(self.pc)
+        s.add(extra)
+        return s.check() != self.z3.unsat  # unknown counts as feasible (the final query decides)
+
+    def assume(self, cond, why):
+        self.pc.append(cond)
+        self.notes.append(why)
+
+    def decide(self, cond):
+        z3 = self.z3
+        c = z3.simplify(cond)
+        if z3.is_true(c):
+            return True
+        if z3.is_false(c):
+            return False
+        can_t, can_f = self.feasible(c), self.feasible(z3.Not(c))
+        if can_t and can_f:
+            take = self.ctx.choice(f"d{self.nd}", 2) == 0
+            self.nd += 1
+        elif can_t or can_f:
+            take = can_t
+        else:
+            self.ctx.assume(False)
+        self.pc.append(c if take else z3.Not(c))
+        return take
+
+    # -- conversions
+    def int_to_fp(self, t):
+        """correctly rounded binary64 of the (mathematical) integer t, |t| < 2**69"""
+        z3 = self.z3
+        self.used_float = True
+        b = z3.BitVec(f"e3_bv{self.fresh}", 70)
+        self.fresh += 1
+        self.pc.append(z3.BV2Int(b, True) == t)
+        return z3.fpSignedToFP(z3.RNE(), b, self.F64)
+
+    def fp_to_int(self, f):
+        """int(float): truncation toward zero; OverflowError / ValueError on inf / nan as python raises them"""
+        z3 = self.z3
+        if self.decide(z3.fpIsInf(f)):
+            raise OverflowError("cannot convert float infinity to integer")
+        if self.decide(z3.fpIsNaN(f)):
+            raise ValueError("cannot convert float NaN to integer")
+        self.assume(z3.fpLEQ(z3.fpAbs(f), z3.FPVal(2.0 ** 100, self.F64)), "int(float) modelled for |float| <= 2**100")
+        return SInt(self, z3.BV2Int(z3.fpToSBV(z3.RTZ(), f, z3.BitVecSort(128)), True))
+
+
+def _zint(eng, x):
+    if isinstance(x, SInt):
+        return x.t
+    if isinstance(x, bool) or not isinstance(x, int):
+        raise TypeError(f"E3: int operand expected, got {type(x).__name__}")
+    return eng.z3.IntVal(x)
+
+
+def _zreal(eng, x):
+    z3 = eng.z3
+    if isinstance(x, SFrac):
+        return x.q
+    if isinstance(x, SInt):
+        return z3.ToReal(x.t)
+    if isinstance(x, Fraction):
+        return z3.RealVal(str(x))
+    if isinstance(x, int) and not isinstance(x, bool):
+        return z3.RealVal(x)
+    raise TypeError(f"E3: rational operand expected, got {type(x).__name__}")
+
+
+class SBool:
+    def __init__(self, eng, t):
+        self.eng, self.t = eng, t
+
+    def __bool__(self):
+        return self.eng.decide(self.t)
+
+    def __invert__(self):
+        return SBool(self.eng, self.eng.z3.Not(self.t))
+
+
+def _cmp(name, op):
+    def f(self, o):
+        try:
+            a, b = self._pair(o)
+        except TypeError:
+            return NotImplemented
+        return SBool(self.eng, op(a, b))
+    f.__name__ = name
+    return f
+
+
+class SInt:
+    """a python int of unknown value: z3 Int term"""
+
+    def __init__(self, eng, t):
+        self.eng, self.t = eng, t
+
+    def _pair(self, o):
+        if isinstance(o, (SFrac, Fraction)):
+            return _zreal(self.eng, self), _zreal(self.eng, o)
+        if isinstance(o, SFloat) or isinstance(o, float):
+            raise TypeError("E3: int/float comparison is not modelled")
+        return self.t, _zint(self.eng, o)
+
+    __eq__ = _cmp("__eq__", lambda a, b: a == b)
+    __ne__ = _cmp("__ne__", lambda a, b: a != b)
+    __lt__ = _cmp("__lt__", lambda a, b: a < b)
+    __le__ = _cmp("__le__", lambda a, b: a <= b)
+    __gt__ = _cmp("__gt__", lambda a, b: a > b)
+    __ge__ = _cmp("__ge__", lambda a, b: a >= b)
+    __hash__ = None
+
+    def __bool__(self):
+        return self.eng.decide(self.t != 0)
+
+    def _arith(self, o, f, swap=False):
+        if isinstance(o, (SFrac, Fraction)):
+            a, b = _zreal(self.eng, self), _zreal(self.eng, o)
+            return SFrac(self.eng, f(b, a) if swap else f(a, b))
+        if isinstance(o, (SFloat, float)):
+            return NotImplemented
+        a, b = self.t, _zint(self.eng, o)
+        return SInt(self.eng, f(b, a) if swap else f(a, b))
+
+    def __add__(self, o):
+        return self._arith(o, lambda a, b: a + b)
+
+    __radd__ = __add__
+
+    def __sub__(self, o):
+        return self._arith(o, lambda a, b: a - b)
+
+    def __rsub__(self, o):
+        return self._arith(o, lambda a, b: a - b, swap=True)
+
+    def __mul__(self, o):
+        return self._arith(o, lambda a, b: a * b)
+
+    __rmul__ = __mul__
+
+    def __neg__(self):
+        return SInt(self.eng, -self.t)
+
+    def __pos__(self):
+        return self
+
+    def __abs__(self):
+        return SInt(self.eng, self.eng.z3.If(self.t >= 0, self.t, -self.t))
+
+    # floor division / modulo with python semantics (sign of the divisor), ZeroDivisionError as python raises it
+    def _divmod(self, a, b):
+        z3 = self.eng.z3
+        if self.eng.decide(b == 0):
+            raise ZeroDivisionError("integer division or modulo by zero")
+        q = z3.If(b > 0, a / b, (-a) / (-b))  # z3 `/` on Int is div: floor for a positive divisor
+        return q, a - b * q
+
+    def __floordiv__(self, o):
+        if isinstance(o, (SFrac, Fraction, SFloat, float)):
+            return NotImplemented
+        return SInt(self.eng, self._divmod(self.t, _zint(self.eng, o))[0])
+
+    def __rfloordiv__(self, o):
+        return SInt(self.eng, self._divmod(_zint(self.eng, o), self.t)[0])
+
+    def __mod__(self, o):
+        if isinstance(o, (SFrac, Fraction, SFloat, float)):
+            return NotImplemented
+        return SInt(self.eng, self._divmod(self.t, _zint(self.eng, o))[1])
+
+    def __rmod__(self, o):
+        return SInt(self.eng, self._divmod(_zint(self.eng, o), self.t)[1])
+
+    def __divmod__(self, o):
+        q, r = self._divmod(self.t, _zint(self.eng, o))
+        return SInt(self.eng, q), SInt(self.eng, r)
+
+    def _truediv(self, a, b):
+        """int / int: the correctly rounded binary64 quotient (CPython long_true_divide)"""
+        eng, z3 = self.eng, self.eng.z3
+        if eng.decide(b == 0):
+            raise ZeroDivisionError("division by zero")
+        q = z3.If(b > 0, a / b, (-a) / (-b))
+        if eng.decide(a - b * q == 0):  # exact quotient: the nearest double of the integer q
+            eng.assume(z3.And(q > -(2 ** 69), q < 2 ** 69), "int -> float modelled for |int| < 2**69")
+            return SFloat(eng, eng.int_to_fp(q))
+        lim = 2 ** 53
+        eng.assume(z3.And(a >= -lim, a <= lim, b >= -lim, b <= lim),
+                   "inexact int / int modelled only for |operands| <= 2**53 (fl(a)/fl(b) is then the correctly rounded quotient)")
+        return SFloat(eng, z3.fpDiv(z3.RNE(), eng.int_to_fp(a), eng.int_to_fp(b)))
+
+    def __truediv__(self, o):
+        if isinstance(o, (SFrac, Fraction)):
+            return SFrac.make(self.eng, self, o)
+        if isinstance(o, (SFloat, float)):
+            return NotImplemented
+        return self._truediv(self.t, _zint(self.eng, o))
+
+    def __rtruediv__(self, o):
+        if isinstance(o, Fraction):
+            return SFrac.make(self.eng, o, self)
+        return self._truediv(_zint(self.eng, o), self.t)
+
+    def __repr__(self):
+        return f"SInt({self.t})"
+
+
+class SFloat:
+    """a python float of unknown value: z3 FloatingPoint(11, 53) term"""
+
+    def __init__(self, eng, f):
+        self.eng, self.f = eng, f
+
+    def _other(self, o):
+        z3 = self.eng.z3
+        if isinstance(o, SFloat):
+            return o.f
+        if isinstance(o, float):
+            return z3.FPVal(o, self.eng.F64)
+        if isinstance(o, SInt):
+            self.eng.assume(z3.And(o.t > -(2 ** 69), o.t < 2 ** 69), "int -> float modelled for |int| < 2**69")
+            return self.eng.int_to_fp(o.t)
+        if isinstance(o, int) and not isinstance(o, bool):
+            return z3.FPVal(float(o), self.eng.F64) if abs(o) <= 2 ** 53 else self.eng.int_to_fp(z3.IntVal(o))
+        raise TypeError("E3: float operand expected")
+
+    def _bin(self, o, op, swap=False):
+        z3 = self.eng.z3
+        try:
+            g = self._other(o)
+        except TypeError:
+            return NotImplemented
+        a, b = (g, self.f) if swap else (self.f, g)
+        return SFloat(self.eng, op(z3.RNE(), a, b))
+
+    def __add__(self, o):
+        return self._bin(o, self.eng.z3.fpAdd)
+
+    __radd__ = __add__
+
+    def __sub__(self, o):
+        return self._bin(o, self.eng.z3.fpSub)
+
+    def __rsub__(self, o):
+        return self._bin(o, self.eng.z3.fpSub, swap=True)
+
+    def __mul__(self, o):
+        return self._bin(o, self.eng.z3.fpMul)
+
+    __rmul__ = __mul__
+
+    def __truediv__(self, o):
+        g = self._other(o)
+        if self.eng.decide(self.eng.z3.fpIsZero(g)):
+            raise ZeroDivisionError("float division by zero")
+        return SFloat(self.eng, self.eng.z3.fpDiv(self.eng.z3.RNE(), self.f, g))
+
+    def __neg__(self):
+        return SFloat(self.eng, self.eng.z3.fpNeg(self.f))
+
+    def _c(self, o, op):
+        try:
+            return SBool(self.eng, op(self.f, self._other(o)))
+        except TypeError:
+            return NotImplemented
+
+    def __eq__(self, o):
+        return self._c(o, self.eng.z3.fpEQ)
+
+    def __ne__(self, o):
+        r = self._c(o, self.eng.z3.fpEQ)
+        return r if r is NotImplemented else ~r
+
+    def __lt__(self, o):
+        return self._c(o, self.eng.z3.fpLT)
+
+    def __le__(self, o):
+        return self._c(o, self.eng.z3.fpLEQ)
+
+    def __gt__(self, o):
+        return self._c(o, self.eng.z3.fpGT)
+
+    def __ge__(self, o):
+        return self._c(o, self.eng.z3.fpGEQ)
+
+    __hash__ = None
+
+    def is_integer(self):
+        z3 = self.eng.z3
+        return bool(SBool(self.eng, z3.fpEQ(z3.fpRoundToIntegral(z3.RTZ(), self.f), self.f)))
+
+    def __repr__(self):
+        return f"SFloat({self.f})"
+
+
+class SFrac:
+    """a fractions.Fraction of unknown value: z3 Real term (exact rational)"""
+
+    def __init__(self, eng, q):
+        self.eng, self.q = eng, q
+
+    @staticmethod
+    def make(eng, num, den):
+        z3 = eng.z3
+        d = _zreal(eng, den)
+        if eng.decide(d == 0):
+            raise ZeroDivisionError("Fraction(%s, 0)" % (num,))
+        return SFrac(eng, _zreal(eng, num) / d)
+
+    def _pair(self, o):
+        return self.q, _zreal(self.eng, o)
+
+    __eq__ = _cmp("__eq__", lambda a, b: a == b)
+    __ne__ = _cmp("__ne__", lambda a, b: a != b)
+    __lt__ = _cmp("__lt__", lambda a, b: a < b)
+    __le__ = _cmp("__le__", lambda a, b: a <= b)
+    __gt__ = _cmp("__gt__", lambda a, b: a > b)
+    __ge__ = _cmp("__ge__", lambda a, b: a >= b)
+    __hash__ = None
+
+    def _arith(self, o, f, swap=False):
+        try:
+            b = _zreal(self.eng, o)
+        except TypeError:
+            return NotImplemented
+        return SFrac(self.eng, f(b, self.q) if swap else f(self.q, b))
+
+    def __add__(self, o):
+        return self._arith(o, lambda a, b: a + b)
+
+    __radd__ = __add__
+
+    def __sub__(self, o):
+        return self._arith(o, lambda a, b: a - b)
+
+    def __rsub__(self, o):
+        return self._arith(o, lambda a, b: a - b, swap=True)
+
+    def __mul__(self, o):
+        return self._arith(o, lambda a, b: a * b)
+
+    __rmul__ = __mul__
+
+    def __truediv__(self, o):
+        return SFrac.make(self.eng, self, o)
+
+    def __rtruediv__(self, o):
+        return SFrac.make(self.eng, o, self)
+
+    def __neg__(self):
+        return SFrac(self.eng, -self.q)
+
+    def __repr__(self):
+        return f"SFrac({self.q})"
+
+
+def _proxies(eng):
+    """proxy-aware `int`, `float`, `Fraction` for the simplifier module's namespace"""
+    import builtins
+
+    z3 = eng.z3
+
+    class _IntMeta(type):
+        def __instancecheck__(cls, x):
+            return isinstance(x, SInt) or builtins.isinstance(x, builtins.int)
+
+        def __call__(cls, x=0, *a):
+            if isinstance(x, SInt):
+                return x
+            if isinstance(x, SFloat):
+                return eng.fp_to_int(x.f)
+            if isinstance(x, SFrac):
+                from vf.ctx import HarnessError
+
+                raise HarnessError("E3: int(Fraction proxy) is not modelled")
+            return builtins.int(x, *a)
+
+    class pint(metaclass=_IntMeta):
+        pass
+
+    class _FloatMeta(type):
+        def __instancecheck__(cls, x):
+            return isinstance(x, SFloat) or builtins.isinstance(x, builtins.float)
+
+        def __call__(cls, x=0.0):
+            if isinstance(x, SFloat):
+                return x
+            if isinstance(x, SInt):
+                eng.assume(z3.And(x.t > -(2 ** 69), x.t < 2 ** 69), "int -> float modelled for |int| < 2**69")
+                return SFloat(eng, eng.int_to_fp(x.t))
+            if isinstance(x, SFrac):
+                from vf.ctx import HarnessError
+
+                raise HarnessError("E3: float(Fraction proxy) is not modelled")
+            return builtins.float(x)
+
+    class pfloat(metaclass=_FloatMeta):
+        pass
+
+    class _FracMeta(type):
+        def __instancecheck__(cls, x):
+            return isinstance(x, SFrac) or builtins.isinstance(x, Fraction)
+
+        def __call__(cls, num=0, den=None):
+            if den is None:
+                if isinstance(num, SFrac):
+                    return num
+                if isinstance(num, SInt):
+                    return SFrac(eng, z3.ToReal(num.t))
+                if isinstance(num, SFloat):  # Fraction(float) is exact
+                    if eng.decide(z3.Or(z3.fpIsInf(num.f), z3.fpIsNaN(num.f))):
+                        raise OverflowError("cannot convert Infinity/NaN to integer ratio")
+                    return SFrac(eng, z3.fpToReal(num.f))
+                return Fraction(num)
+            if any(isinstance(v, (SInt, SFrac)) for v in (num, den)):
+                return SFrac.make(eng, num, den)
+            if any(isinstance(v, SFloat) for v in (num, den)):
+                raise TypeError("both arguments should be Rational instances")
+            return Fraction(num, den)
+
+    class pFraction(metaclass=_FracMeta):
+        pass
+
+    return pint, pfloat, pFraction
+
+
+class _StubConst:
+    """what walk_div may ask of a constant argument node"""
+
+    def __init__(self, value, real):
+        self._value, self._real = value, real
+
+    def is_int_constant(self):
+        return not self._real
+
+    def is_real_constant(self):
+        return self._real
+
+    def is_constant(self):
+        return True
+
+    def constant_value(self):
+        return self._value
+
+    def __getattr__(self, name):
+        if name.startswith("is_"):
+            return lambda: False
+        from vf.ctx import HarnessError
+
+        raise HarnessError(f"E3 stub node: attribute {name} is not modelled")
+
+
+class _StubManager:
+    def Int(self, v):
+        return ("int", v)
+
+    def Real(self, v):
+        return ("real", v)
+
+    def Div(self, left, right):
+        return ("div", left, right)
+
+    def __getattr__(self, name):
+        from vf.ctx import HarnessError
+
+        raise HarnessError(f"E3 stub manager: {name} is not modelled")
+
+
+def _run_walk_div(eng, left, right):
+    """the REAL Simplifier.walk_div on stub constant nodes; -> ('int'|'real'|'div', value...) or ('raise', exception name)"""
+    import unified_planning.model.walkers.simplifier as sm
+
+    pint, pfloat, pFraction = _proxies(eng)
+    simp = sm.Simplifier.__new__(sm.Simplifier)
+    simp.manager, simp.environment, simp.static_fluents, simp.problem = _StubManager(), None, set(), None
+    missing = object()
+    saved = {k: sm.__dict__.get(k, missing) for k in ("int", "float", "Fraction")}
+    sm.int, sm.float, sm.Fraction = pint, pfloat, pFraction
+    try:
+        try:
+            return sm.Simplifier.walk_div(simp, None, [left, right])
+        except (ZeroDivisionError, OverflowError, ValueError, AssertionError) as ex:
+            return ("raise", type(ex).__name__)
+    finally:
+        for k, v in saved.items():
+            if v is missing:
+                del sm.__dict__[k]
+            else:
+                setattr(sm, k, v)
+
+
+def _operands(eng, branch, fixed=None):
+    """-> (left stub, right stub, exact numerator term, exact denominator term, query vars): the exact quotient is num/den"""
+    z3 = eng.z3
+    names = {"int-int": ["l", "r"], "int-real": ["l", "rn", "rd"], "real-int": ["ln", "ld", "r"], "real-real": ["ln", "ld", "rn", "rd"]}[branch]
+    v = {}
+    for i, nm in enumerate(names):
+        t = z3.Int(nm)
+        eng.pc.append(z3.And(t >= I64[0], t <= I64[1]))
+        if nm in ("ld", "rd"):
+            eng.pc.append(t >= 2)  # a Real constant: positive denominator; denominator 1 is an int-valued Real, covered by d >= 2 with n multiple of d
+        if fixed is not None:
+            eng.pc.append(t == fixed[i])
+        v[nm] = t
+    if branch == "int-int":
+        L, R = SInt(eng, v["l"]), SInt(eng, v["r"])
+        num, den = v["l"], v["r"]
+    elif branch == "int-real":
+        L, R = SInt(eng, v["l"]), SFrac(eng, z3.ToReal(v["rn"]) / z3.ToReal(v["rd"]))
+        num, den = v["l"] * v["rd"], v["rn"]
+    elif branch == "real-int":
+        L, R = SFrac(eng, z3.ToReal(v["ln"]) / z3.ToReal(v["ld"])), SInt(eng, v["r"])
+        num, den = v["ln"], v["ld"] * v["r"]
+    else:
+        L, R = SFrac(eng, z3.ToReal(v["ln"]) / z3.ToReal(v["ld"])), SFrac(eng, z3.ToReal(v["rn"]) / z3.ToReal(v["rd"]))
+        num, den = v["ln"] * v["rd"], v["ld"] * v["rn"]
+    eng.pc.append(den != 0)  # Div by a zero constant is not an expression (the type checker rejects it)
+    return _StubConst(L, branch.startswith("real")), _StubConst(R, branch.endswith("real")), num, den, v
+
+
+def _result_violation(eng, res, num, den):
+    """z3 term: the folded constant differs from num/den (None: nothing was folded)"""
+    z3 = eng.z3
+    if res[0] == "raise":
+        return z3.BoolVal(True)  # divisor non-zero on this path: an exception is a wrong answer
+    if res[0] == "div":
+        return None
+    val = res[1]
+    if res[0] == "int":
+        if isinstance(val, SInt):
+            return val.t * den != num
+        return z3.IntVal(int(val)) * den != num
+    q = _zreal(eng, val)
+    return q * z3.ToReal(den) != z3.ToReal(num)
+
+
+def _real_fold(values, branch):
+    """the REAL simplifier on the concrete operands, through the public API -> (folded value as Fraction | None, exact Fraction, text)"""
+    from unified_planning.environment import Environment
+    from unified_planning.model.walkers.simplifier import Simplifier
+
+    env = Environment()
+    em = env.expression_manager
+    g = lambda k: int(values[k])  # noqa: E731
+    if branch == "int-int":
+        lv, rv = g("l"), g("r")
+    elif branch == "int-real":
+        lv, rv = g("l"), Fraction(g("rn"), g("rd"))
+    elif branch == "real-int":
+        lv, rv = Fraction(g("ln"), g("ld")), g("r")
+    else:
+        lv, rv = Fraction(g("ln"), g("ld")), Fraction(g("rn"), g("rd"))
+    mk = lambda x: em.Int(x) if isinstance(x, int) else em.Real(x)  # noqa: E731
+    e = em.Div(mk(lv), mk(rv))
+    exact = Fraction(lv) / Fraction(rv)
+    try:
+        s = Simplifier(env).simplify(e)
+    except Exception as ex:  # noqa
+        return ("raise", type(ex).__name__), exact, f"{lv} / {rv}"
+    if not (s.is_int_constant() or s.is_real_constant()):
+        return None, exact, f"{lv} / {rv}"
+    return Fraction(s.constant_value()), exact, f"{lv} / {rv}"
+
+
+def h_div(ctx, branch):
+    """layer 2: every path of the real walk_div on symbolic 64-bit operands"""
+    sig = f"div:{branch}:folded-constant-differs"
+    msg = f"Simplifier.walk_div folds a {branch} constant division to a constant that is not the exact quotient"
+
+    def concrete(m):
+        got, exact, _txt = _real_fold(m, branch)
+        return got is not None and got != exact
+
+    if ctx.mode == "replay":
+        ctx.forall(None, concrete, sig, msg)
+        return
+    eng = _Engine(ctx)
+    L, R, num, den, qv = _operands(eng, branch)
+    res = _run_walk_div(eng, L, R)
+    viol = _result_violation(eng, res, num, den)
+    ctx.note("result", f"{res[0]} float-arithmetic={'yes' if eng.used_float else 'no'} assumptions={sorted(set(eng.notes))}")
+    if viol is None:
+        ctx.witness("not-folded")
+        return
+    ctx.forall(lambda: (eng.z3.And(eng.pc + [viol]), qv), concrete, sig, msg)
+    ctx.witness("folded-via-float" if eng.used_float else "folded-exact")
+
+
+SELFTEST_PAIRS = {
+    "int-int": [(6, 3), (7, 2), (-7, 2), (6, -3), (0, 5), (2 ** 53 + 1, 1), (3 * (2 ** 60 + 1), 3), (10 ** 18, 10), (-(2 ** 63), -1), (9, 6)],
+    "int-real": [(3, 1, 2), (-5, 7, 3)],
+    "real-int": [(1, 2, 3), (7, 3, -2)],
+    "real-real": [(1, 2, 3, 4), (-9, 4, 3, 2)],
+}
+
+
+def h_div_selftest(ctx, branches):
+    for br in branches:
+        _selftest_branch(ctx, br)
+
+
+def _selftest_branch(ctx, branch):
+    """validation of the E3 encoding: with the operands fixed, the proxy run of walk_div must give exactly what the real Simplifier gives"""
+    from vf.ctx import HarnessError
+
+    if ctx.mode == "replay":
+        return
+    import z3
+
+    for fixed in SELFTEST_PAIRS[branch]:
+        eng = _Engine(ctx)
+        L, R, num, den, qv = _operands(eng, branch, fixed=fixed)
+        res = _run_walk_div(eng, L, R)
+        names = list(qv)
+        got, exact, txt = _real_fold(dict(zip(names, fixed)), branch)
+        s = z3.Solver()
+        s.set("timeout", 60000)
+        s.add(eng.pc)
+        if s.check() != z3.sat:
+            raise HarnessError(f"E3 selftest: path condition of {txt} is not satisfiable")
+        m = s.model()
+        if res[0] in ("int", "real"):
+            v = res[1]
+            t = v.t if isinstance(v, SInt) else v.q if isinstance(v, SFrac) else None
+            if t is None:
+                mine = Fraction(v)
+            else:
+                mv = m.eval(t, model_completion=True)
+                mine = Fraction(mv.as_long()) if z3.is_int_value(mv) else Fraction(mv.numerator_as_long(), mv.denominator_as_long())
+        else:
+            mine = None if res[0] == "div" else res
+        if mine != got:
+            raise HarnessError(f"E3 selftest: proxy run of walk_div on {txt} gives {mine}, the real Simplifier gives {got}")
+        if (got is not None and not isinstance(got, tuple)) and got != exact:
+            ctx.note("selftest-sees-defect", txt)
+        ctx.witness("selftest-agree")
+
+
+# =============================================================================================
 # shards
 def _sh(name, pool, root="B", n=7, d=3, forced=None, budget=100, engine="symex", **kw):
     symbolic = engine == "symex"
@@ -689,64 +1356,107 @@ def _sh(name, pool, root="B", n=7, d=3, forced=None, budget=100, engine="symex",
 BOOLOPS = ["not", "and", "or", "implies", "iff"]
 
 
-def layer1_quick():
+def layer1(tier):
+    q = tier == "quick"
+    bud = 120 if q else 900
     out = []
     # -- symbolic constants (symex) --
     # Boolean structure over a fluent and constant-only atoms that fold on solver-chosen sides (k1<=k2, k2<k1 complementary)
-    out.append(_sh("l1-bool-k-andor", dict(B=["b", "k1<=k2", "k2<k1", "not", "and", "or"], N=[], O=[]), forced={"r": ["and", "or"]}))
-    out.append(_sh("l1-bool-k-impiff", dict(B=["b", "k1<=k2", "k2<k1", "not", "implies", "iff"], N=[], O=[]), forced={"r": ["implies", "iff"]}))
+    BK = ["b", "k1<=k2", "k2<k1"] if q else ["b", "c", "k1<=k2", "k2<k1", "k1==k2", "n<=k1"]
+    out.append(_sh("l1-bool-k-andor", dict(B=BK + ["not", "and", "or"], N=[], O=[]), forced={"r": ["and", "or"]}, budget=bud))
+    out.append(_sh("l1-bool-k-impiff", dict(B=BK + ["not", "implies", "iff"], N=[], O=[]), forced={"r": ["implies", "iff"]}, budget=bud))
+    if not q:
+        out.append(_sh("l1-bool-k-mixed", dict(B=["b", "k1<=k2", "k2<k1"] + BOOLOPS, N=[], O=[]), budget=bud))
     # numeric terms: constant accumulation / flattening in walk_plus, walk_minus, walk_times
-    out.append(_sh("l1-num-plusminus", dict(B=[], N=["n", "k1", "k2", "2", "+", "-"], O=[]), root="N", n=5, d=2))
-    out.append(_sh("l1-num-times", dict(B=[], N=["n", "m", "k1", "0", "1", "2", "*", "times3"], O=[]), root="N", n=5, d=2))
-    out.append(_sh("l1-num-mixed", dict(B=[], N=["n", "k1", "-1", "+", "-", "*", "plus3"], O=[]), root="N", n=5, d=2))
+    fams = [("plusminus", ["n", "k1", "k2", "+", "-", "plus3"], ["2"], ["+", "-", "plus3"]),
+            ("times", ["n", "k1", "0", "2", "*", "times3"], ["m", "1"], ["*", "times3"]),
+            ("mixed", ["n", "k1", "-1", "+", "-", "*"], ["k2", "plus3"], ["+", "-", "*", "plus3"])]
+    for fname, base, extra, roots in fams:
+        if q:
+            out.append(_sh(f"l1-num-{fname}", dict(B=[], N=base, O=[]), root="N", n=5, d=2, budget=bud))
+        else:
+            for r in roots:
+                for r0 in roots + ["leaf"]:
+                    if r0 == r and r in ("plus3", "times3"):
+                        continue  # does not fit in 6 nodes
+                    lv = [x for x in base + extra if x not in roots]
+                    out.append(_sh(f"l1-num-{fname}-{r}-{r0}", dict(B=[], N=base + extra, O=[]), root="N", n=6, d=3, budget=bud,
+                                   forced={"r": r, "r0": lv if r0 == "leaf" else r0}))
     # comparisons of an arithmetic term with a second symbolic constant
-    out.append(_sh("l1-cmp-le", dict(B=["le"], N=["n", "k1", "k2", "2", "+", "-"], O=[]), forced={"r1": "k2", "r0": ["n", "k1", "2", "+", "-"]}))
-    out.append(_sh("l1-cmp-lt-eq", dict(B=["lt", "eq"], N=["n", "k1", "k2", "2", "+", "*"], O=[]), n=6, forced={"r1": ["k2", "n"]}))
+    for cmp in (["le"] if q else ["le", "lt", "eq"]):
+        out.append(_sh(f"l1-cmp-{cmp}", dict(B=[cmp], N=["n", "k1", "k2", "+", "-"] + ([] if q else ["2"]), O=[]),
+                       forced={"r1": "k2", "r0": ["n", "k1", "+", "-"]}, budget=bud))
+    out.append(_sh("l1-cmp-lt-eq", dict(B=["lt", "eq"], N=["n", "k1", "k2", "2", "+", "*"], O=[]), n=6 if q else 7, forced={"r1": ["k2", "n"]}, budget=bud))
     # interpreted function on constant / non-constant arguments
-    out.append(_sh("l1-ifun", dict(B=["le", "eq"], N=["F", "k1", "k2", "n", "1", "+"], O=[]), n=6, forced={"r0": "F"}))
+    out.append(_sh("l1-ifun", dict(B=["le", "eq"], N=["F", "k1", "k2", "n", "1", "+"], O=[]), n=6 if q else 7, forced={"r0": "F"}, budget=bud))
     # simplification relative to a problem: static fluents are replaced by their (symbolic) initial values
-    out.append(_sh("l1-static", dict(B=["sb", "sp(o1)", "sp(o2)", "b", "le", "and", "not"], N=["sn", "k1", "n", "+"], O=[]),
-                   n=6, problem=True, forced={"r": ["le", "and", "not"], "r1": ["sb", "sp(o1)", "sp(o2)", "b", "k1", "sn"]}))
+    out.append(_sh("l1-static", dict(B=["sb", "sp(o1)", "sp(o2)", "le", "and", "not"] + ([] if q else ["b", "eq"]), N=["sn", "k1", "n", "+"], O=[]),
+                   n=6 if q else 7, problem=True, forced={"r": ["le", "and", "not"] if q else ["le", "eq", "and", "not"], "r1": ["sb", "sp(o1)", "sp(o2)", "k1", "sn"]}, budget=bud))
     # the coincidence k2 = k1 (one node for both)
     out.append(_sh("l1-alias", dict(B=["k1<=k2", "k2<k1", "k1==k2", "n<=k1", "k2<n", "and", "or", "iff", "not"], N=[], O=[]), alias=True,
-                   forced={"r": ["and", "or", "iff"]}))
+                   forced={"r": ["and", "or", "iff"]}, budget=bud))
+    if not q:
+        out.append(_sh("l1-alias-num", dict(B=["le", "eq"], N=["n", "k1", "k2", "+", "-", "*"], O=[]), alias=True, n=6, budget=bud))
     # -- concrete constants (choice-only engine): wider structure --
-    out.append(_sh("l1c-bool", dict(B=["b", "c", "true", "false", "not", "and", "or", "implies", "iff"], N=[], O=[]), n=5, engine="direct"))
-    out.append(_sh("l1c-arith", dict(B=[], N=["n", "6", "3", "0", "-2", "1/2", "-", "*", "/"], O=[]), root="N", n=5, d=2, engine="direct"))
-    out.append(_sh("l1c-cmp-div", dict(B=["le", "eq"], N=["n", "m", "6", "3", "-2", "/", "*", "F"], O=[]), n=6, engine="direct", forced={"r0": ["/", "*", "F"]}))
-    out.append(_sh("l1c-quant", dict(B=["exists", "forall", "b", "p(x)", "p(o1)", "p(z)", "x==o1", "and", "or", "not"], N=[], O=[]), n=7, engine="direct",
-                   forced={"r": ["exists", "forall"]}))
+    B0 = ["b", "c", "true", "false", "not", "and", "or", "implies", "iff"]
+    out.append(_sh("l1c-bool", dict(B=B0 if q else B0 + ["1<=2", "and3"], N=[], O=[]), n=5 if q else 6, engine="direct", budget=bud))
+    out.append(_sh("l1c-arith", dict(B=[], N=["n", "6", "3", "0", "-2", "1/2", "-", "*", "/"] + ([] if q else ["+"]), O=[]), root="N", n=5, d=2, engine="direct", budget=bud))
+    out.append(_sh("l1c-cmp-div", dict(B=["le", "eq"], N=["n", "m", "6", "3", "-2", "/", "*", "F"], O=[]), n=6, engine="direct", forced={"r0": ["/", "*", "F"]}, budget=bud))
+    out.append(_sh("l1c-quant", dict(B=["exists", "forall", "b", "p(x)", "p(o1)", "p(z)", "x==o1", "and", "or", "not"], N=[], O=[]), n=7 if q else 8, d=3 if q else 4,
+                   engine="direct", forced={"r": ["exists", "forall"]}, budget=bud))
     out.append(_sh("l1c-static", dict(B=["sb", "sp", "b", "le", "and", "implies", "not", "exists"], N=["sn", "3", "n", "+", "F"], O=["o1", "o2", "x", "y"]),
-                   n=6, problem=True, engine="direct", forced={"r": ["le", "and", "implies", "not", "exists"]}))
+                   n=6, problem=True, engine="direct", forced={"r": ["le", "and", "implies", "not", "exists"]}, budget=bud))
+    if not q:
+        for op in ("le", "eq", "and", "or", "implies", "iff", "not", "exists", "forall"):
+            out.append(_sh(f"l1c-wide-{op}", dict(B=["b", "p", "le", "eq", "oeq", "and", "or", "not", "exists"], N=["n", "3", "0", "+", "*", "/", "F"], O=["o1", "x", "z", "w"]),
+                           n=6, d=3, engine="direct", forced={"r": op}, budget=bud))
     return out
 
 
-def layer3_quick():
+def layer3(tier):
     """exists x. (x = t and phi): the shape rewritten by Simplifier.walk_exists"""
+    q = tier == "quick"
+    bud = 120 if q else 900
     out = []
     EQ = ["x==o1", "o1==x", "x==z", "x==y", "x==w(x)", "w(x)==x", "x==w(o1)", "x==o2"]
     PHI = ["p(x)", "p(o1)", "q(x,z)", "b", "not", "or", "and"]
-    out.append(_sh("l3-exists-eq", dict(B=EQ + PHI, N=[], O=[]), n=9, d=4, engine="direct",
+    out.append(_sh("l3-exists-eq", dict(B=EQ + PHI, N=[], O=[]), n=9 if q else 10, d=4, engine="direct", budget=bud,
                    forced={"r": "exists", "r0": ["and", "and3"], "r00": EQ + ["p(x)"], "r01": EQ + PHI}))
-    out.append(_sh("l3-exists-eq-sub", dict(B=EQ + PHI, N=[], O=[]), n=8, d=4, engine="direct", sub=True,
-                   forced={"r": "existsS", "r0": "and", "r00": EQ + ["p(x)"]}))
+    out.append(_sh("l3-exists-eq-sub", dict(B=EQ + PHI, N=[], O=[]), n=8 if q else 10, d=4, engine="direct", sub=True, budget=bud,
+                   forced={"r": "existsS", "r0": ["and"] if q else ["and", "and3"], "r00": EQ + ["p(x)"]}))
     EQ2 = ["x==xo", "xo==x", "x==w(xo)", "xo==w(x)", "x==o1", "x==z"]
-    out.append(_sh("l3-exists2", dict(B=EQ2 + ["p(x)", "p(xo)", "q(x,xo)", "and", "and3"], N=[], O=[]), n=11, d=4, engine="direct",
+    out.append(_sh("l3-exists2", dict(B=EQ2 + ["p(x)", "p(xo)", "q(x,xo)", "and", "and3"], N=[], O=[]), n=11 if q else 12, d=4, engine="direct", budget=bud,
                    forced={"r": "exists2", "r0": ["and", "and3"]}))
     NEST = ["exists", "forall"]
-    out.append(_sh("l3-nested", dict(B=["x==o1", "x==z", "x==xo", "xo==x", "x==w(xo)", "p(x)", "q(x,xo)", "q(x,z)", "and"] + NEST, N=[], O=[]), n=12, d=5,
-                   engine="direct", forced={"r": "exists", "r0": "and", "r00": ["x==o1", "x==z", "p(x)"], "r01": NEST, "r010": ["and", "q(x,xo)", "q(x,z)"]}))
+    out.append(_sh("l3-nested", dict(B=["x==o1", "x==z", "x==xo", "xo==x", "x==w(xo)", "p(x)", "q(x,xo)", "q(x,z)", "and"] + NEST, N=[], O=[]), n=12 if q else 13, d=5,
+                   engine="direct", budget=bud,
+                   forced={"r": "exists", "r0": "and", "r00": ["x==o1", "x==z", "x==xn", "xn==x", "p(x)"], "r01": NEST, "r010": ["and", "q(x,xo)", "q(x,z)"]}))
+    return out
+
+
+def layer2(tier):
+    brs = ["int-int", "int-real", "real-int", "real-real"]
+    out = [dict(name="l2-div-selftest", fn="h_div_selftest", kwargs=dict(branches=brs), budget=300, engine="direct", query_timeout=60)]
+    for br in brs:
+        out.append(dict(name=f"l2-div-{br}", fn="h_div", kwargs=dict(branch=br), budget=300 if tier == "quick" else 900, engine="direct", query_timeout=60))
     return out
 
 
 def shards(tier, seed):
-    return layer1_quick() + layer3_quick()
+    return layer1(tier) + layer2(tier) + layer3(tier)
 
 
 MANIFEST = dict(
     engine="symex",
-    technique="symbolic execution (CrossHair/z3) of the real Simplifier on grammar-generated typed expression skeletons with symbolic integer constants; "
-              "equivalence decided by one z3 query per path over all interpretations; IEEE-754-exact proxy execution of walk_div at unit level",
-    text="TODO",
-    note="TODO",
+    technique="symbolic execution (CrossHair/z3) of the real Simplifier on grammar-generated typed expression skeletons with symbolic integer constants, "
+              "equivalence decided by one z3 query per path over all interpretations; choice-only enumeration for concrete-constant and quantifier skeletons; "
+              "IEEE-754-exact proxy (concolic) execution of the real Simplifier.walk_div at unit level with z3 FloatingPoint(11,53) terms",
+    text="Bounded model checking in three layers. (1) For every typed expression skeleton of the stated pools (<= 7 nodes, depth <= 3) and EVERY value of the "
+         "symbolic integer constants (and of the static fluent's initial value), simplify(e) has the same value as e under every interpretation of fluents, parameters "
+         "and free variables within their declared types (divisors non-zero), has no new free variable, and is a fixed point of simplify. (2) For all 64-bit signed "
+         "operands, the constant that walk_div folds equals the exact quotient (decided on an IEEE-754-exact model of the float arithmetic the function performs; "
+         "counterexamples replayed on the real Simplifier). (3) The exists-elimination skeletons (x = t and phi, two variables, nested, sub-typed) satisfy the same assertions.",
+    note="Trusted: vf/exprsem.py as the meaning of expressions, CrossHair's int model, z3 (Int/Real/FloatingPoint), the shims S2' S7 S8 listed in ASSUMPTIONS. "
+         "Defects found on the pinned tree are listed in known_findings.txt (walk_div float rounding above 2**53; walk_exists: self-referential equality, sub-typed variable, "
+         "variable capture, result not re-simplified; walk_minus result not flattened). Outside: deeper expressions, temporal operators, real constants with symbolic denominators.",
 )
